@@ -60,6 +60,10 @@ def run(idx, rep, tier):
     # "each once": a group run collects into its own run directory (data.csv is opened for append; a stale directory doubles the lines)
     from . import c10
     c10.run_state(idx, K.as_rule(rep, "R4"), "R4")
+    # the same two modes in a breadth-first run of a group: unmatched lines are kept per member, a no-run member is never handed a line
+    from . import c08
+    c08.byline_keep(idx, rep, "R4")
+    c08.byline_norun(idx, rep, "R5")
     rep.stats["exhaustive"] = True
 
 
